@@ -43,9 +43,10 @@ AM2 = {
         {"src": "y", "tgt": "z", "events": ["next"]},
         {"src": "x", "tgt": "w", "events": ["abort"]},
         {"src": "y", "tgt": "w", "events": ["abort"]},
-        {"src": "y", "tgt": "y", "events": ["poll"], "internal": True},
+        {"src": "y", "tgt": "y", "events": ["poll"], "internal": True, "cond": ["g1"], "on": ["note"]},
+        {"src": "y", "tgt": "y", "events": ["poll"], "internal": True, "on": ["log"]},  # same state, same event: the guarded alternative's fallback
     ],
-    "methods": {"machine": ["g1"]},
+    "methods": {"machine": ["g1", "note", "log"]},
 }
 AM3 = {  # a non-final state without outgoing transitions (the library only warns) and a final state
     "states": [{"id": "p", "initial": True}, {"id": "q"}, {"id": "r", "final": True}],
@@ -205,8 +206,9 @@ def run(ctx, params):
             raise Mismatch(f"final-border-wrong:{tag}", f"state {s['id']} final={bool(s.get('final'))} drawn with peripheries={per}")
         for t in am["transitions"]:
             if t["src"] == s["id"] and t.get("internal"):
-                if not any(all(ev in line.split("/")[0].split() for ev in t["events"]) and "/" in line for line in label.split("\n")[1:]):
-                    raise Mismatch(f"internal-transition-not-in-node:{tag}", f"state {s['id']}: label {label!r} does not list internal transition on {t['events']}")
+                entries = [e for line in label.split("\n")[1:] for e in line.split(", ") if "/" in e]
+                if not any(all(ev in e.split("/")[0].split() for ev in t["events"]) and all(a in e.split("/", 1)[1] for a in t.get("on", [])) for e in entries):
+                    raise Mismatch(f"internal-transition-not-in-node:{tag}", f"state {s['id']}: label {label!r} does not list the internal transition on {t['events']} running {t.get('on', [])}")
                 ctx.cover("internal-in-label")
         fills[s["id"]] = (strip(n.get("fillcolor") or ""), strip(n.get("penwidth") or ""))
     if any(s.get("final") for s in am["states"]):
